@@ -24,6 +24,7 @@ def run(tier, seed):
         PID, tier, seed, mc, rp,
         level_text='TLC exhaustive + replay of every behaviour of the dumped state graphs into the real Process',
         assumptions=C.ASSUMPTIONS + ['the reference (uninterrupted) run is computed by the same operators with no pause/play and compared inside TLC; step entries carry the status message and the paused flag sampled at the entry of the real step function'],
+        suite_traces=lambda e: e[0] == 'obs' or (e[0] in ('cs', 'ce') and e[1] in ('pause', 'play')),
         rule='every sequence of <=K pause/play/resume requests between any two callbacks (and re-entrant pause/play from step bodies and listeners); executed steps, their arguments, status at entry, outputs and outcome compared with the uninterrupted run')
 
 
